@@ -7,6 +7,7 @@ import (
 	"encoding/binary"
 	"errors"
 	"fmt"
+	"io"
 	"math"
 	"net"
 	"time"
@@ -261,12 +262,14 @@ func (a *TCPAllocation) BindConnection(dataConn *TCPConn, cid proto.ConnectionID
 		return err
 	}
 
-	// Read exactly one STUN message, any data after belongs to the user
+	// Read exactly one STUN message, any data after belongs to the user.
+	// The reply can arrive in any number of TCP segments.
 	b := make([]byte, stunHeaderSize)
-	n, err := dataConn.Read(b)
-	if n != stunHeaderSize {
-		return errIncompleteTURNFrame
-	} else if err != nil {
+	if _, err = io.ReadFull(dataConn, b); err != nil {
+		if errors.Is(err, io.EOF) || errors.Is(err, io.ErrUnexpectedEOF) {
+			return errIncompleteTURNFrame
+		}
+
 		return err
 	}
 
@@ -274,11 +277,14 @@ func (a *TCPAllocation) BindConnection(dataConn *TCPConn, cid proto.ConnectionID
 		return errInvalidTURNFrame
 	}
 
-	datagramSize := binary.BigEndian.Uint16(b[2:4]) + stunHeaderSize
+	datagramSize := int(binary.BigEndian.Uint16(b[2:4])) + stunHeaderSize
 	raw := make([]byte, datagramSize)
 	copy(raw, b)
-	_, err = dataConn.Read(raw[stunHeaderSize:])
-	if err != nil {
+	if _, err = io.ReadFull(dataConn, raw[stunHeaderSize:]); err != nil {
+		if errors.Is(err, io.EOF) || errors.Is(err, io.ErrUnexpectedEOF) {
+			return errIncompleteTURNFrame
+		}
+
 		return err
 	}
 	res := &stun.Message{Raw: raw}
